@@ -188,12 +188,14 @@ def group_order(case):
 XA = [0., 1., 0.5, 0.25, 0.125, 0.75, 0.375, 2., 3., 2. ** -20, 2. ** -10, 0.0625, 1.5]
 TS = [250., 256., 298.15, 300., 320.5, 350., 373.125, 400., 450.]
 def gen_si(rng):
-    def one():
-        k = rng.choice([0, 0, 1, 2])
+    # kinds: 0 affine (a+x)/b, 1 Moebius (a+x)/(b+x), 2 quadratic a+x*x/b.  exp is applied to the largest
+    # intermediate values, so it only gets the degree-one kinds (keeps the exact numbers small)
+    def one(kinds):
+        k = rng.choice(kinds)
         a = F(rng.choice([1, 2, 3, 5, 7, -1, -3]), rng.choice([1, 2, 4]))
         b = F(rng.choice([2, 3, 4, 5, 7, -2]), rng.choice([1, 2]))
         return [k, fr_json(a), fr_json(b)]
-    return [one(), one(), one()]
+    return [one([0, 0, 1]), one([0, 0, 1, 2]), one([0, 1, 2])]
 
 def gen_x(rng, n, names):
     r = rng.random()
@@ -227,7 +229,7 @@ def gen_cases(rng, tier):
     def mk(cls, names, x, T):
         return {'kind': 'wrap', 'cls': cls, 'chems': list(names), 'x': x, 'T': T,
                 'xkind': rng.choice(['f64', 'f64', 'f64', 'list', 'int', 'f32']),
-                'si': gen_si(rng), 'quant': rng.choice([64, 64, 16, None])}
+                'si': gen_si(rng), 'quant': rng.choice([64, 64, 16, 1024])}
     # all permutations of selected sets (n <= 4), one composition per set carried along
     for names in PERM_SETS if tier != 'quick' else PERM_SETS[:2] + [PERM_SETS[3][:3]]:
         cls = rng.choice(CLASSES)
@@ -571,6 +573,6 @@ CORPUS = [
     {'kind': 'wrap', 'cls': 'Dortmund', 'chems': ['Water', 'Ethanol'], 'x': [0.5, 0.5], 'T': 350.,
      'xkind': 'list', 'si': [[1, '3/1', '2/1'], [2, '-1/1', '3/1'], [0, '1/1', '2/1']], 'quant': None},
     {'kind': 'wrap', 'cls': 'NIST', 'chems': ['Water', 'Ethanol'], 'x': [0.5, 0.5], 'T': 350.,
-     'xkind': 'list', 'si': [[0, '3/1', '2/1'], [0, '-1/1', '3/1'], [2, '1/1', '2/1']], 'quant': None},
+     'xkind': 'list', 'si': [[0, '3/1', '2/1'], [0, '-1/1', '3/1'], [2, '1/1', '2/1']], 'quant': 2 ** 20},
 ]
 WITNESSES = []
